@@ -20,7 +20,7 @@ CHECKS = {
  "C11": ("emulator.System is probed black-box on all 2^24 addresses for reads and writes; TLC validates the recorded system page tables against the recorded real LoROM table (Agree) and MemMap.tla's SysMap is model-checked against its LoROM table.",
          "Trusted: TLC, the probe's decoding of backing array/index (self-checked by a reproduction pass).",
          "TLA+ spec (MemMap.tla SysMap) + TLC MC + TLC validation of black-box probe tables"),
- "C01": ("Cpu65816.tla is an explicit TLA+ transcription of the WDC native-mode programming model (all 256 opcodes, 8/16-bit widths, wrap rules); every Step of BOTH real interpreters -- opcodes cycled 0..255 from boundary-biased states with junk in the non-authoritative register copies, top-of-memory states, decimal states, lock-step chains through pseudo-random and width-switch-rich programs -- is recorded as a self-contained event and judged by TLC against Step(). The open known finding dec_bcd is attributed behaviourally (the event must equal what the named deviation predicts).",
+ "C01": ("Cpu65816.tla is an explicit TLA+ transcription of the WDC native-mode programming model (all 256 opcodes, 8/16-bit widths, wrap rules); every Step of BOTH real interpreters -- opcodes cycled 0..255 from boundary-biased states with junk in the non-authoritative register copies, top-of-memory states, decimal states, lock-step chains through pseudo-random and width-switch-rich programs -- is recorded as a self-contained event and judged by TLC against Step(). Decimal ADC/SBC (repaired in /repo by c992b5c) is compared with the BCD model; an event that instead equals what the named deviation dec_bcd (the old arithmetic) predicts is reported as that defect having returned.",
          "Trusted: TLC, my transcription of the WDC model (contested corners left free: decimal V, invalid BCD, PC after WAI/STP). Sampling of the state space is seeded, not exhaustive; no TLC-exported program enumeration yet.",
          "TLA+ spec (Cpu65816.tla + ISA.tla) + TLC trace validation of recorded Step events of both real interpreters"),
  "C02": ("Every recorded event carries the outcome of both interpreters from the same state and memory; TLC checks Equiv (registers, flags, E, stop status, written memory, per-step cycles, running totals, panics) in native and emulation mode, binary and decimal, with pending IRQs, single steps and lock-step chains; where Cpu65816.tla defines the behaviour each side is also compared with the model.",
